@@ -22,11 +22,13 @@ pub struct Case {
     pub io: u8,
     /// compare the complete model set (else: structural probes only)
     pub exact: bool,
+    /// a completed grid known to respect the givens (probe mode; avoids searching large grids)
+    pub known_solution: Option<Vec<usize>>,
 }
 
 impl Case {
     fn to_json(&self) -> Value {
-        json!({"root": self.root, "puzzle": self.puzzle, "io": self.io, "exact": self.exact})
+        json!({"root": self.root, "puzzle": self.puzzle, "io": self.io, "exact": self.exact, "known_solution": self.known_solution})
     }
 }
 
@@ -101,7 +103,7 @@ pub fn check_case(ctx: &Ctx, st: &mut Stats, c: &Case, tag: &str) {
                 return;
             }
         };
-        match solve3::Search::new(&p, limit * 2 + 10, 20_000_000).run() {
+        match solve3::Search::new(&p, limit * 2 + 10, 3_000_000).run() {
             Err(_) => st.bump("model_enumeration_gave_up(inconclusive case)"),
             Ok((models, nodes)) => {
                 st.add("search_nodes", nodes);
@@ -197,7 +199,10 @@ pub fn check_case(ctx: &Ctx, st: &mut Stats, c: &Case, tag: &str) {
         }
         // a full valid grid respecting the givens satisfies; a near-miss falsifies
         {
-            let sols = puzzles::sudoku_some(c.root, &givens, 1);
+            let sols = match &c.known_solution {
+                Some(g) if g.len() == cells && givens.iter().enumerate().all(|(i, d)| *d == 0 || g[i] == *d) => vec![g.clone()],
+                _ => puzzles::sudoku_some(c.root, &givens, 1),
+            };
             if let Some(g) = sols.first() {
                 let mut asg = vec![false; p.names.len()];
                 for (i, d) in g.iter().enumerate() {
@@ -226,7 +231,7 @@ pub fn check_case(ctx: &Ctx, st: &mut Stats, c: &Case, tag: &str) {
     }
 }
 
-const BLANKS: [char; 8] = ['.', '_', 'x', '-', '*', '?', 'o', '"'];
+const BLANKS: [char; 12] = ['.', '_', 'x', '-', '*', '?', 'o', '"', '·', '□', '＿', 'é'];
 
 fn layout(rng: &mut Rng, root: usize, grid: &[usize]) -> String {
     let sq = root * root;
@@ -235,7 +240,7 @@ fn layout(rng: &mut Rng, root: usize, grid: &[usize]) -> String {
     let mut s = String::new();
     for (i, g) in grid.iter().enumerate() {
         if *g == 0 {
-            s.push(if rng.chance(1, 6) { *rng.pick(&BLANKS[..7]) } else { blank });
+            s.push(if rng.chance(1, 6) { *rng.pick(&BLANKS) } else { blank });
         } else {
             s.push(char::from_digit(*g as u32, 10).unwrap());
         }
@@ -262,7 +267,7 @@ fn layout(rng: &mut Rng, root: usize, grid: &[usize]) -> String {
             }
             _ => {
                 if rng.chance(1, 4) {
-                    s.push(*rng.pick(&[' ', '\n', '\t']));
+                    s.push(*rng.pick(&[' ', '\n', '\t', '\u{a0}', '\u{2003}', '\u{3000}']));
                 }
             }
         }
@@ -271,25 +276,38 @@ fn layout(rng: &mut Rng, root: usize, grid: &[usize]) -> String {
 }
 
 fn random_full_grid(rng: &mut Rng, root: usize) -> Vec<usize> {
-    // a random valid grid: solve the empty puzzle with a few random seeds
+    // a random valid grid without search: the canonical pattern, then symmetries that preserve
+    // validity (digit relabelling, row permutations within bands, band permutations, same for
+    // columns, transposition)
     let sq = root * root;
-    let cells = sq * sq;
-    for _ in 0..50 {
-        let mut giv = vec![0usize; cells];
-        // random first row + a few random consistent cells
-        let mut row: Vec<usize> = (1..=sq).collect();
-        rng.shuffle(&mut row);
-        giv[..sq].copy_from_slice(&row);
-        {
-            if let Some(g) = puzzles::sudoku_some(root, &giv, 1).into_iter().next() {
-                // relabel digits randomly for variety
-                let mut perm: Vec<usize> = (1..=sq).collect();
-                rng.shuffle(&mut perm);
-                return g.iter().map(|d| perm[d - 1]).collect();
+    let perm_lines = |rng: &mut Rng| -> Vec<usize> {
+        let mut bands: Vec<usize> = (0..root).collect();
+        rng.shuffle(&mut bands);
+        let mut out = Vec::new();
+        for b in bands {
+            let mut inner: Vec<usize> = (0..root).collect();
+            rng.shuffle(&mut inner);
+            for i in inner {
+                out.push(b * root + i);
             }
         }
+        out
+    };
+    let rows = perm_lines(rng);
+    let cols = perm_lines(rng);
+    let mut digits: Vec<usize> = (1..=sq).collect();
+    rng.shuffle(&mut digits);
+    let transpose = rng.chance(1, 2);
+    let mut g = vec![0usize; sq * sq];
+    for r in 0..sq {
+        for c in 0..sq {
+            let (rr, cc) = if transpose { (cols[c], rows[r]) } else { (rows[r], cols[c]) };
+            let base = (root * (rr % root) + rr / root + cc) % sq;
+            g[r * sq + c] = digits[base];
+        }
     }
-    vec![0; cells]
+    debug_assert_eq!(puzzles::sudoku_some(root, &g, 2).len(), 1);
+    g
 }
 
 fn job(ctx: &Ctx, jb: usize, r2: u64, r3: u64, r4: u64) -> Stats {
@@ -323,11 +341,11 @@ fn job(ctx: &Ctx, jb: usize, r2: u64, r3: u64, r4: u64) -> Stats {
         }
         let mut text = layout(&mut rng, 2, &grid);
         match rng.below(8) {
-            0 => text.truncate(text.len() / 2),
+            0 => text = text.chars().take(text.chars().count() / 2).collect(),
             1 => text.push_str("1234....1"),
             _ => {}
         }
-        check_case(ctx, &mut st, &Case { root: 2, puzzle: text, io: rng.below(3) as u8, exact: true }, &format!("{}-a{}", jb, i));
+        check_case(ctx, &mut st, &Case { root: 2, puzzle: text, io: rng.below(3) as u8, exact: true, known_solution: None }, &format!("{}-a{}", jb, i));
     }
     // r = 3: puzzles with 30-60 givens from valid grids (small solution sets) — exact
     for i in 0..r3 {
@@ -344,7 +362,7 @@ fn job(ctx: &Ctx, jb: usize, r2: u64, r3: u64, r4: u64) -> Stats {
             grid[a] = 1 + rng.usize(9); // often contradictory
         }
         let text = layout(&mut rng, 3, &grid);
-        check_case(ctx, &mut st, &Case { root: 3, puzzle: text, io: rng.below(3) as u8, exact: true }, &format!("{}-b{}", jb, i));
+        check_case(ctx, &mut st, &Case { root: 3, puzzle: text, io: rng.below(3) as u8, exact: true, known_solution: None }, &format!("{}-b{}", jb, i));
     }
     // r = 3 (empty / sparse) and r = 4: structural probes
     for i in 0..r4 {
@@ -358,7 +376,7 @@ fn job(ctx: &Ctx, jb: usize, r2: u64, r3: u64, r4: u64) -> Stats {
             }
         }
         let text = layout(&mut rng, root, &grid);
-        check_case(ctx, &mut st, &Case { root, puzzle: text, io: rng.below(3) as u8, exact: false }, &format!("{}-c{}", jb, i));
+        check_case(ctx, &mut st, &Case { root, puzzle: text, io: rng.below(3) as u8, exact: false, known_solution: Some(full.clone()) }, &format!("{}-c{}", jb, i));
     }
     st
 }
@@ -372,24 +390,24 @@ pub fn run(ctx: &Ctx) -> (Stats, Spec) {
     for a in ["", "1", ".", " "] {
         for b in ["", "1", ".", " "] {
             k += 1;
-            check_case(ctx, &mut st, &Case { root: 1, puzzle: format!("{}{}", a, b), io: (k % 3) as u8, exact: true }, &format!("r1-{}", k));
+            check_case(ctx, &mut st, &Case { root: 1, puzzle: format!("{}{}", a, b), io: (k % 3) as u8, exact: true, known_solution: None }, &format!("r1-{}", k));
         }
     }
     st.exhaustive.push("root 1: every input of length <= 2 over {1, ., space}".into());
     // fixed: the empty 4x4 puzzle (288 grids), the repository's example, blank symbols incl. the double quote
-    check_case(ctx, &mut st, &Case { root: 2, puzzle: "".into(), io: 1, exact: true }, "empty2");
-    check_case(ctx, &mut st, &Case { root: 2, puzzle: "................".into(), io: 0, exact: true }, "dots2");
+    check_case(ctx, &mut st, &Case { root: 2, puzzle: "".into(), io: 1, exact: true, known_solution: None }, "empty2");
+    check_case(ctx, &mut st, &Case { root: 2, puzzle: "................".into(), io: 0, exact: true, known_solution: None }, "dots2");
     if let Ok(ex) = std::fs::read_to_string(ctx.repo_dir.join("examples/sudoku.txt")) {
-        check_case(ctx, &mut st, &Case { root: 3, puzzle: ex, io: 0, exact: true }, "example");
+        check_case(ctx, &mut st, &Case { root: 3, puzzle: ex, io: 0, exact: true, known_solution: None }, "example");
         st.bump("repository_example");
     }
     for b in BLANKS {
         let puzzle: String = "1.3...2.....4...".chars().map(|c| if c == '.' { b } else { c }).collect();
-        check_case(ctx, &mut st, &Case { root: 2, puzzle, io: 0, exact: true }, &format!("blank-{}", b as u32));
+        check_case(ctx, &mut st, &Case { root: 2, puzzle, io: 0, exact: true, known_solution: None }, &format!("blank-{}", b as u32));
         st.bump("blank_symbols_probed");
     }
     let spec = Spec {
-        rule: "root 1 exhaustively; root 2: the empty puzzle (288 grids) and random hint patterns (0-16 givens taken from valid grids, contradictory patterns incl. box-only conflicts, truncated and over-long inputs, 5 layouts with spaces/newlines/tabs/CRLF, 8 blank symbols incl. the double quote); root 3: puzzles with 30-60 givens derived from generated valid grids and the repository's example (exact model sets), sparse puzzles and root 4 by structural probes (same digit twice in a unit, two digits / no digit in a cell, givens enforced, a valid grid satisfies, near-misses falsify). Exact = all models enumerated, decoded through _c_is_d and compared as a set with an independent backtracking solver. distinct = (root, normalised givens); non-trivial = at least one given and one blank.".into(),
+        rule: "root 1 exhaustively; root 2: the empty puzzle (288 grids) and random hint patterns (0-16 givens taken from valid grids, contradictory patterns incl. box-only conflicts, truncated and over-long inputs, 5 layouts with spaces/newlines/tabs/CRLF, 12 blank symbols incl. the double quote and multi-byte characters (·, □, ＿, é), ASCII and Unicode whitespace); root 3: puzzles with 30-60 givens derived from generated valid grids and the repository's example (exact model sets), sparse puzzles and root 4 by structural probes (same digit twice in a unit, two digits / no digit in a cell, givens enforced, a valid grid satisfies, near-misses falsify). Exact = all models enumerated, decoded through _c_is_d and compared as a set with an independent backtracking solver. distinct = (root, normalised givens); non-trivial = at least one given and one blank.".into(),
         assumptions: vec![
             "givens are digits between 1 and r^2; 0 and larger digits are outside the statement's domain and are not generated".into(),
             "rsbdd itself cannot solve even the 4x4 formula within minutes, so there is no engine cross-check here".into(),
@@ -398,7 +416,7 @@ pub fn run(ctx: &Ctx) -> (Stats, Spec) {
             ("exact_cases".into(), 200, "too few exact comparisons".into()),
             ("contradictory_puzzles".into(), 20, "contradictory puzzles hardly exercised".into()),
             ("root_3".into(), 10, "root 3 hardly exercised".into()),
-            ("blank_symbols_probed".into(), 8, "blank symbols not probed".into()),
+            ("blank_symbols_probed".into(), 12, "blank symbols not probed".into()),
             ("unit_pairs_probed".into(), 500, "structural probes hardly exercised".into()),
             ("distinct_nontrivial".into(), 150, "too few non-trivial puzzles".into()),
         ],
@@ -412,6 +430,7 @@ pub fn replay(ctx: &Ctx, _monitor: &str, case: &Value, st: &mut Stats) {
         puzzle: case.get("puzzle").and_then(|p| p.as_str()).unwrap_or("").to_string(),
         io: case.get("io").and_then(|b| b.as_u64()).unwrap_or(0) as u8,
         exact: case.get("exact").and_then(|b| b.as_bool()).unwrap_or(true),
+        known_solution: case.get("known_solution").and_then(|k| k.as_array()).map(|a| a.iter().filter_map(|x| x.as_u64().map(|v| v as usize)).collect()),
     };
     check_case(ctx, st, &c, "replay");
 }
